@@ -1,13 +1,22 @@
-(* C01 - chunk codec round trip.  Proved so far (C01_..._partial): the serializer's output for every accepted
-   operation sequence is read back as exactly the same message sequence by the specification decoder, and
-   every accepted message yields a non-empty packet.  The same statement for the library's own staged
-   deserializer under every partition of the bytes follows from the refinement idec <= sdec (C06) and the
-   partition lemma (C15); until those are closed the deserializer side is decided by the correspondence check
-   (real serializer -> real deserializer under whole / byte-wise / fixed / random partitions). *)
-From RML Require Import Model.Base Model.Chunk Model.ChunkSer Spec.ChunkSpec Proofs.ChunkSerProofs.
+(* C01 - chunk codec round trip, proved end to end on the models of serializer.rs and deserializer.rs:
+   for EVERY operation sequence the serializer accepts (messages with any type id, stream id, timestamp, payload of
+   0..16777215 bytes, force_uncompressed / can_be_dropped flags, chunk-size changes in between) and EVERY partition of
+   the produced bytes into input calls, the documented driving loop of the deserializer (which applies each decoded
+   Set Chunk Size) returns exactly the sequence of payloads, without error and within its fuel.
+   Proof chain: T1 (serializer output = chunk records the independent specification decoder reads back, ChunkSerProofs),
+   T2 (the staged deserializer refines the specification decoder on every accepted record, ChunkRefineProofs),
+   C15 (partition independence, ChunkDeProofs), fuel adequacy (ChunkDeFuel).  op_wf bounds the fields to their wire
+   types (u8 type id, u32 ids/timestamps, bytes < 256, chunk sizes 1..2^31-1).
+   The models are tied to the Rust code by the correspondence check (real serializer -> real deserializer). *)
+From RML Require Import Model.Base Model.Chunk Model.ChunkSer Model.ChunkDe Spec.ChunkSpec Proofs.ChunkSerProofs Proofs.ChunkEndToEnd.
 Local Open Scope N_scope.
 
-Theorem C01_roundtrip_spec_partial : forall ops packets st',
+Theorem C01_roundtrip_any_partition : forall ops packets st' pieces,
+  Forall op_wf ops -> ser_run ser_init ops = Ok (packets, st') -> concat pieces = concat packets ->
+  exists s1, feed_all de_init pieces [] = (s1, map op_msg ops, None).
+Proof. exact roundtrip_all. Qed.
+
+Theorem C01_roundtrip_spec_decoder : forall ops packets st',
   Forall op_wf ops -> ser_run ser_init ops = Ok (packets, st') ->
   sdec (concat packets) = SOk (map op_msg ops).
 Proof. exact ser_sdec. Qed.
@@ -16,5 +25,6 @@ Theorem C01_packets_nonempty : forall ops packets st',
   Forall op_wf ops -> ser_run ser_init ops = Ok (packets, st') -> Forall (fun b => b <> []) packets.
 Proof. exact packets_nonempty. Qed.
 
-Print Assumptions C01_roundtrip_spec_partial.
+Print Assumptions C01_roundtrip_any_partition.
+Print Assumptions C01_roundtrip_spec_decoder.
 Print Assumptions C01_packets_nonempty.
